@@ -557,6 +557,14 @@ fn exhaustive(name: &str) -> i32 {
                 if matches!(v, V::PValid | V::SpecClassPval | V::ContextJ | V::ContextO) { for l in c.to_lowercase() { let vl = ref_derived(l as u32, true);
                     if matches!(vl, V::Disallowed | V::Unassigned) { bad.push(cp); } } } } }
             println!("{{\"found\":{},\"evaluated\":{},\"bad\":{:?}}}", !bad.is_empty(), n, bad); if bad.is_empty() { 0 } else { 1 } }
+        // C09: the bidi class of EVERY code point assigned in the profile crate's Unicode version, as observable through
+        // the public directionality rule: four probe labels per code point against the rule evaluated over the UCD oracle
+        "bidi_probe" => { let m = UsernameCaseMapped::new(); let mut n = 0u64;
+            for cp in 0..=0x10ffffu32 { if !o_assigned16(cp) { continue; } if let Some(c) = char::from_u32(cp) { n += 1;
+                for probe in [format!("{}", c), format!("\u{5d0}{}", c), format!("a{}", c), format!("\u{5d0}{}\u{5d0}", c), format!("\u{627}{}\u{661}", c)] {
+                    let got = own(m.directionality_rule(probe.as_str())); let exp = ref_dir_rule(&probe, true);
+                    if got != exp { println!("{{\"found\":true,\"input\":{},\"detail\":{}}}", json_str(&probe), json_str(&format!("directionality_rule({}): got {}, expected {} (bidi class of U+{:04X} per UnicodeData: {})", esc(&probe), show(&got), show(&exp), cp, bname(c)))); return 1; } } } }
+            println!("{{\"found\":false,\"evaluated\":{}}}", n); 0 }
         _ => 2,
     }
 }
